@@ -35,6 +35,7 @@ package main
 import (
 	"archive/zip"
 	"bytes"
+	"encoding/xml"
 	"fmt"
 	"io"
 	"math"
@@ -427,6 +428,14 @@ func (h *c02Hist) apply(t *c02Twin, w []string) (res string) {
 		return c02Err(f.SetSheetVisible(h.sheet(n(1)), w[2] == "1"))
 	case "dim":
 		return c02Err(f.SetSheetDimension(h.sheet(n(1)), c02Name(n(2), n(3))+":"+c02Name(n(4), n(5))))
+	case "formctl":
+		types := []xl.FormControlType{xl.FormControlButton, xl.FormControlCheckBox, xl.FormControlOptionButton, xl.FormControlSpinButton}
+		return c02Err(f.AddFormControl(h.sheet(n(1)), xl.FormControl{Cell: c02Name(n(2), n(3)), Type: types[n(4)%len(types)],
+			Text: "ctl" + w[4], Width: 80, Height: 30}))
+	case "delformctl":
+		return c02Err(f.DeleteFormControl(h.sheet(n(1)), c02Name(n(2), n(3))))
+	case "comment":
+		return c02Err(f.AddComment(h.sheet(n(1)), xl.Comment{Cell: c02Name(n(2), n(3)), Author: "vh", Text: "note " + w[4]}))
 	case "stream":
 		name := "S" + strconv.Itoa(len(h.names)+1)
 		if _, err := f.NewSheet(name); err != nil {
@@ -501,6 +510,29 @@ func c02Observe(f *xl.File, h *c02Hist) (obs []c02Obs) {
 		p := fmt.Sprintf("%d:", i)
 		add(i, p+"visible", "sheets", safe(func() string { v, err := f.GetSheetVisible(name); return fmt.Sprint(v, err != nil) }))
 		add(i, p+"dim", "dim", safe(func() string { v, err := f.GetSheetDimension(name); return fmt.Sprint(v, err != nil) }))
+		add(i, p+"formcontrols", "vml", safe(func() string {
+			fcs, err := f.GetFormControls(name)
+			if err != nil {
+				return "ERR"
+			}
+			var s []string
+			for _, c := range fcs {
+				s = append(s, fmt.Sprintf("%s/%d/%s", c.Cell, c.Type, hx(c.Text)))
+			}
+			return strings.Join(s, ",")
+		}))
+		add(i, p+"comments", "vml", safe(func() string {
+			cs, err := f.GetComments(name)
+			if err != nil {
+				return "ERR"
+			}
+			var s []string
+			for _, c := range cs {
+				s = append(s, c.Cell+"/"+hx(c.Text))
+			}
+			sort.Strings(s)
+			return strings.Join(s, ",")
+		}))
 		add(i, p+"merges", "merges", safe(func() string {
 			ms, err := f.GetMergeCells(name)
 			if err != nil {
@@ -668,6 +700,176 @@ func c02Diff(x, y []c02Obs) (bool, c02Obs, string) {
 	return false, c02Obs{}, ""
 }
 
+// c02PartClass names the kind of part for failure signatures.
+func c02PartClass(name string) string {
+	switch {
+	case strings.HasPrefix(name, "xl/worksheets/sheet"):
+		return "worksheet"
+	case strings.HasSuffix(name, ".rels"):
+		return "rels"
+	case strings.HasSuffix(name, ".vml"):
+		return "vml"
+	case strings.HasPrefix(name, "xl/comments"):
+		return "comments"
+	case strings.HasPrefix(name, "xl/drawings"):
+		return "drawing"
+	}
+	return strings.TrimSuffix(name[strings.LastIndex(name, "/")+1:], ".xml")
+}
+
+// c02CanonXML renders an XML part as a token list with resolved namespaces and sorted
+// attributes; whitespace-only text is dropped. In worksheet parts blank attribute-less
+// `<c r=…/>` elements and `<row>` elements left without cells and attributes other than r/spans
+// are dropped (fillColumns artefacts, see c02Grid). Non-XML parts are returned as they are.
+func c02CanonXML(name string, data []byte) string {
+	if !(strings.HasSuffix(name, ".xml") || strings.HasSuffix(name, ".rels") || strings.HasSuffix(name, ".vml")) {
+		return string(data)
+	}
+	d := xml.NewDecoder(bytes.NewReader(data))
+	d.Strict = false
+	type el struct {
+		open     string
+		children int
+		blankC   bool
+		emptyRow bool
+	}
+	ws := strings.HasPrefix(name, "xl/worksheets/sheet")
+	colStyle, rowStyle, inherits := map[int]string{}, "", false
+	var out []string
+	var stack []int // index in out of the opening token
+	var info []el
+	for {
+		tok, err := d.Token()
+		if err != nil {
+			if err != io.EOF {
+				return string(data)
+			}
+			break
+		}
+		switch t := tok.(type) {
+		case xml.StartElement:
+			var as []string
+			onlyR, rowPlain := true, true
+			for _, a := range t.Attr {
+				if a.Name.Space == "xmlns" || a.Name.Local == "xmlns" {
+					continue
+				}
+				as = append(as, a.Name.Space+"|"+a.Name.Local+"="+a.Value)
+				if a.Name.Local != "r" {
+					onlyR = false
+				}
+				if a.Name.Local != "r" && a.Name.Local != "spans" {
+					rowPlain = false
+				}
+			}
+			sort.Strings(as)
+			if ws && t.Name.Local == "col" {
+				// a `<col min max …>` range is written one column at a time: how runs of equal columns are
+				// grouped into ranges depends on when mergeExpandedCols ran, the per-column attributes do not
+				lo, hi := 0, 0
+				var rest []string
+				for _, a := range as {
+					switch {
+					case strings.HasPrefix(a, "|min="):
+						lo = c02Atoi(a[5:])
+					case strings.HasPrefix(a, "|max="):
+						hi = c02Atoi(a[5:])
+					default:
+						rest = append(rest, a)
+					}
+				}
+				if lo >= 1 && hi >= lo && hi <= 16384 {
+					for c := lo; c <= hi; c++ {
+						out = append(out, fmt.Sprintf("<col %d %s></col>", c, strings.Join(rest, " ")))
+						for _, a := range rest {
+							if strings.HasPrefix(a, "|style=") {
+								colStyle[c] = a[7:]
+							}
+						}
+					}
+					if len(info) > 0 {
+						info[len(info)-1].children++
+					}
+					d.Skip()
+					continue
+				}
+			}
+			if ws && t.Name.Local == "row" {
+				rowStyle = ""
+				for _, a := range as {
+					if strings.HasPrefix(a, "|s=") {
+						rowStyle = a[3:]
+					}
+				}
+			}
+			if ws && t.Name.Local == "c" && len(as) == 2 && strings.HasPrefix(as[0], "|r=") && strings.HasPrefix(as[1], "|s=") {
+				// a valueless cell whose stored style is the one it inherits anyway (SetRowStyle / SetColStyle copy
+				// the style onto the blank cells that happen to exist): not content, GetCellStyle answers the same
+				cs := as[1][3:]
+				col, _, _ := xl.CellNameToCoordinates(as[0][3:])
+				if (rowStyle != "" && cs == rowStyle) || (rowStyle == "" && colStyle[col] == cs) {
+					inherits = true
+				}
+			}
+			if len(info) > 0 {
+				info[len(info)-1].children++
+			}
+			stack = append(stack, len(out))
+			info = append(info, el{blankC: ws && t.Name.Local == "c" && (onlyR || inherits), emptyRow: ws && t.Name.Local == "row" && rowPlain})
+			inherits = false
+			out = append(out, "<"+t.Name.Space+"|"+t.Name.Local+" "+strings.Join(as, " ")+">")
+		case xml.EndElement:
+			i, e := stack[len(stack)-1], info[len(info)-1]
+			stack, info = stack[:len(stack)-1], info[:len(info)-1]
+			if (e.blankC || e.emptyRow) && e.children == 0 && len(out) == i+1 {
+				out = out[:i]
+				if len(info) > 0 {
+					info[len(info)-1].children--
+				}
+				continue
+			}
+			out = append(out, "</"+t.Name.Local+">")
+		case xml.CharData:
+			if txt := strings.TrimSpace(string(t)); txt != "" {
+				if len(info) > 0 {
+					info[len(info)-1].children++
+				}
+				out = append(out, hx(string(t)))
+			}
+		}
+	}
+	return strings.Join(out, "")
+}
+
+var c02DefaultBin = regexp.MustCompile(`<[^<>]*\|Default [^<>]*\|Extension=bin></Default>`)
+
+func c02CanonParts(pkg []byte) map[string]string {
+	m := map[string]string{}
+	hasBin := false
+	zr, err := zip.NewReader(bytes.NewReader(pkg), int64(len(pkg)))
+	if err != nil {
+		return m
+	}
+	for _, zf := range zr.File {
+		rc, err := zf.Open()
+		if err != nil {
+			continue
+		}
+		data, _ := io.ReadAll(rc)
+		rc.Close()
+		m[zf.Name] = c02CanonXML(zf.Name, data)
+		if strings.HasSuffix(zf.Name, ".bin") {
+			hasBin = true
+		}
+	}
+	if ct, ok := m["[Content_Types].xml"]; ok && !hasBin {
+		// SaveAs / Write with a path declare `<Default Extension="bin" …vbaProject>` once, by file extension;
+		// without any .bin part the declaration has no referent
+		m["[Content_Types].xml"] = c02DefaultBin.ReplaceAllString(ct, "")
+	}
+	return m
+}
+
 func c02Parts(pkg []byte) []string {
 	zr, err := zip.NewReader(bytes.NewReader(pkg), int64(len(pkg)))
 	if err != nil {
@@ -711,7 +913,7 @@ func (h *c02Hist) fail(sig, what string, line int) {
 		}
 	}
 	if !strings.HasPrefix(sig, "panic:") && !strings.HasPrefix(sig, "save-twice") && h.overlappingMerges() {
-		for _, a := range []string{":merges:", ":cell:", ":rows:", ":type:", ":formula:", ":style:", ":result:"} {
+		for _, a := range []string{":merges:", ":cell:", ":rows:", ":type:", ":formula:", ":style:", ":result:", ":part:worksheet:"} {
 			if strings.Contains(sig+":", a) {
 				sig = "twin:overlapping-merges-normalised-at-save"
 				break
@@ -781,6 +983,21 @@ func (h *c02Hist) decoded(sig string, x, y []byte, what string) {
 		h.fail(sig+":parts", fmt.Sprintf("%s: part sets differ: %v vs %v", what, px, py), 0)
 		return
 	}
+	// every part, after XML canonicalisation (not only what the worksheet getters report)
+	cx, cy := c02CanonParts(x), c02CanonParts(y)
+	for _, name := range px {
+		if cx[name] != cy[name] {
+			a, b := cx[name], cy[name]
+			k := 0
+			for k < len(a) && k < len(b) && a[k] == b[k] {
+				k++
+			}
+			lo := max(0, k-60)
+			h.fail(sig+":part:"+c02PartClass(name), fmt.Sprintf("%s: part %s differs after canonicalisation near `%s` vs `%s`",
+				what, name, a[lo:min(len(a), k+80)], b[lo:min(len(b), k+80)]), 0)
+			break
+		}
+	}
 	fx, e1 := xl.OpenReader(bytes.NewReader(x))
 	fy, e2 := xl.OpenReader(bytes.NewReader(y))
 	if e1 != nil || e2 != nil {
@@ -832,6 +1049,13 @@ func (h *c02Hist) freshTwin() []byte {
 	return b
 }
 
+func c02RepoDir() string {
+	if d := os.Getenv("VERIF_REPO"); d != "" {
+		return d
+	}
+	return "/repo"
+}
+
 func c02New() *xl.File {
 	f := xl.NewFile()
 	f.NewStyle(&xl.Style{Font: &xl.Font{Bold: true}})
@@ -848,12 +1072,36 @@ func (h *c02Hist) execOne(w []string, twin bool) string {
 		return 0
 	}
 	switch w[0] {
-	case "new":
+	case "new", "open":
 		if h.a.f != nil {
 			h.a.f.Close()
 		}
 		if h.b.f != nil {
 			h.b.f.Close()
+		}
+		h.a.f, h.b.f = nil, nil
+		if w[0] == "open" { // a fixture of the repository (read-only), by base name
+			if len(w) != 2 || strings.ContainsAny(w[1], "/\\") {
+				return "bad-op"
+			}
+			data, err := os.ReadFile(filepath.Join(c02RepoDir(), "test", w[1]))
+			if err != nil {
+				return "ERR"
+			}
+			fa, err := xl.OpenReader(bytes.NewReader(data))
+			if err != nil {
+				return "ERR"
+			}
+			h.a.f = fa
+			if twin {
+				h.b.f, _ = xl.OpenReader(bytes.NewReader(data))
+			}
+			h.names = fa.GetSheetList()
+			h.kinds = make([]string, len(h.names))
+			for i := range h.kinds {
+				h.kinds[i] = "fixture"
+			}
+			return "ok"
 		}
 		h.a.f = c02New()
 		if twin {
@@ -908,7 +1156,7 @@ func (h *c02Hist) execOne(w []string, twin bool) string {
 				h.kinds[i] = "opened"
 			}
 		}
-	case "val", "fml", "sty", "get", "iget", "float", "rich", "link":
+	case "val", "fml", "sty", "get", "iget", "float", "rich", "link", "formctl", "delformctl", "comment":
 		h.touch(n(1), n(2), n(3))
 	case "merge", "unmerge", "dim":
 		h.touch(n(1), n(2), n(3))
@@ -932,7 +1180,7 @@ func (h *c02Hist) execOne(w []string, twin bool) string {
 var c02Mutating = map[string]bool{"val": true, "fml": true, "sty": true, "hide": true, "newsheet": true, "copy": true,
 	"float": true, "rich": true, "merge": true, "unmerge": true, "colw": true, "colvis": true, "colsty": true, "colout": true,
 	"rowsty": true, "rowh": true, "rowout": true, "insr": true, "delr": true, "insc": true, "delc": true,
-	"dupr": true, "link": true, "defname": true, "active": true, "shvis": true, "dim": true, "stream": true}
+	"dupr": true, "link": true, "formctl": true, "delformctl": true, "comment": true, "defname": true, "active": true, "shvis": true, "dim": true, "stream": true}
 
 // observeBefore / observeAfter are the getter calls that accompany `save k o`.
 // One getter side effect is left in the library (the first string read creates
@@ -962,7 +1210,7 @@ func (h *c02Hist) line(l string) int {
 	if len(w) == 0 {
 		return 0
 	}
-	if w[0] == "new" {
+	if w[0] == "new" || w[0] == "open" {
 		h.dead, h.poison = false, false
 		h.lines = nil
 		h.maxC, h.maxR, h.far = 1, 1, map[[3]int]bool{}
@@ -1276,6 +1524,16 @@ func (g *c02Gen) wideOp() []string {
 	if rg.Chance(8) {
 		return g.colBurst(sh)
 	}
+	if rg.Chance(9) { // VML-backed features: form controls and comments
+		switch rg.Intn(5) {
+		case 0, 1:
+			return []string{fmt.Sprintf("formctl %d %d %d %d", sh, min(c, 12), min(r, 12), rg.Intn(8))}
+		case 2, 3:
+			return []string{fmt.Sprintf("comment %d %d %d %d", sh, min(c, 12), min(r, 12), rg.Intn(8))}
+		default:
+			return []string{fmt.Sprintf("delformctl %d %d %d", sh, min(c, 12), min(r, 12))}
+		}
+	}
 	switch rg.Intn(24) {
 	case 0:
 		return []string{fmt.Sprintf("float %d %d %d %x", sh, c, r, math.Float64bits([]float64{0.1, 1.5, 1e21, -2.25, 43831.5, 1.0000000000000002}[rg.Intn(6)]))}
@@ -1451,7 +1709,7 @@ func c02RunLines(h *c02Hist, lines []string) {
 		if len(w) == 0 || strings.HasPrefix(l, "#") {
 			continue
 		}
-		if w[0] == "new" {
+		if w[0] == "new" || w[0] == "open" {
 			h.finish()
 		}
 		h.line(l)
@@ -1564,11 +1822,18 @@ var c02Regressions = [][]string{
 	// adjacent single-column definitions that differ only in style must survive mergeExpandedCols
 	{"new", "colw 0 1 4 20", "colsty 0 3 3 1", "save 0 6", "get 0 4 1", "save 1 7"},
 	{"new", "colsty 0 2 2 1", "colsty 0 3 3 2", "colout 0 4 1", "colvis 0 5 0", "save 2 7", "colw 0 2 3 10", "save 0 7"},
+	// VML parts: add, save, add, save, read (the writer must not drop what it has loaded)
+	{"new", "formctl 0 1 1 0", "save 0 2", "formctl 0 2 5 1", "save 0 6", "comment 0 3 3 1", "save 0 7"},
+	{"new", "comment 0 1 1 0", "formctl 0 2 2 0", "reopen", "save 0 2", "formctl 0 2 5 1", "comment 0 4 4 2", "save 0 6", "save 0 7"},
 	// spilled shared strings: only a numeric cell is read before the save
 	{"new", "val 0 1 1 s " + hx("text value number 1, long enough to exceed the size limit of the part"),
 		"val 0 1 2 s " + hx("text value number 2, long enough to exceed the size limit of the part"),
 		"val 0 2 1 - " + hx("10"), "val 0 2 2 - " + hx("20"), "reopen 64", "get 0 2 1", "save 0 2", "get 0 1 1", "save 0 7"},
 }
+
+// the workbooks under test/ that belong to the repository (everything else there is written by its test suite)
+var c02Tracked = map[string]bool{"BadWorkbook.xlsx": true, "Book1.xlsx": true, "CalcChain.xlsx": true, "MergeCell.xlsx": true,
+	"OverflowNumericCell.xlsx": true, "SharedStrings.xlsx": true, "encryptAES.xlsx": true, "encryptSHA1.xlsx": true}
 
 func runC02(r *Run, rng *Rng, replay string) {
 	r.Rule = "a history counts as non-trivial when it contains at least one save followed by at least one later mutation; distinct = distinct op-line sequences"
@@ -1618,6 +1883,42 @@ func runC02(r *Run, rng *Rng, replay string) {
 	for i := 0; i < nMal; i++ {
 		g.history(false, rng.Range(3, 14), true)
 		r.Stat("history:malformed")
+	}
+	// fixtures of the repository, opened from bytes: two consecutive saves (every part compared after
+	// canonicalisation), then a short wide history with saves against the never-saved twin
+	fixtures, _ := filepath.Glob(filepath.Join(c02RepoDir(), "test", "*.xls[xm]"))
+	sort.Strings(fixtures)
+	nFix := 0
+	for _, fx := range fixtures {
+		base := filepath.Base(fx)
+		if !c02Tracked[base] {
+			continue // outputs of the repository's own test suite are not fixtures
+		}
+		reps := 2
+		if r.Tier == "thorough" {
+			reps = 8
+		}
+		for k := 0; k < reps; k++ {
+			h.finish()
+			h.emit = false
+			if h.line("open "+base); h.a.f == nil {
+				r.Stat("fixture:not-opened")
+				break
+			}
+			g.nsheet = len(h.names)
+			g.last, g.strs = nil, map[[3]int]bool{}
+			h.line(fmt.Sprintf("save %d 0", rng.Intn(4)))
+			h.line(fmt.Sprintf("save %d %d", rng.Intn(4), []int{0, 2, 6}[rng.Intn(3)]))
+			for i := rng.Range(2, 10); i > 0 && g.nsheet > 0; i-- {
+				for _, l := range g.wideOp() {
+					h.line(l)
+					r.Stat("op:" + strings.Fields(l)[0])
+				}
+			}
+			h.finish()
+			nFix++
+			r.Stat("history:fixture")
+		}
 	}
 	nSpill := nWide / 4
 	for i := 0; i < nSpill; i++ {
